@@ -314,7 +314,7 @@ func cmdCheck(args []string) {
 		ok := false
 		switch fv.v.Kind {
 		case "assert":
-			ok = o.assertFail == fv.v.Label
+			ok = o.assertFail == fv.v.Label || (fv.run.spec.Race && o.race)
 		case "panic", "fatal":
 			ok = o.panicked
 		case "deadlock":
@@ -504,6 +504,7 @@ type replayOut struct {
 	oom        bool
 	reached    map[string]bool
 	exit       int
+	race       bool
 }
 
 func newReplayer(repo, root, scratch, modfile string) *replayer {
@@ -634,6 +635,8 @@ func (rp *replayer) run(h HarnessSpec, replayFile string, expectHang bool) repla
 			}
 		case strings.HasPrefix(line, "SIGQUIT"):
 			o.timedOut = true
+		case strings.Contains(line, "WARNING: DATA RACE"):
+			o.race = true
 		}
 	}
 	if o.exit == 124 || o.exit == 131 || strings.Contains(o.output, "SIGQUIT: quit") {
